@@ -433,4 +433,40 @@ def namedValid : Nat → List Route → Bool
 def serveNamed (env routes : List Route) (hasErrs : Bool) (errs : List Route) (req : Req) : Result :=
   serve (inlineNamed env env.length routes) hasErrs (inlineNamed env env.length errs) req
 
+/-! ### response handlers (`caddyhttp.ResponseHandler`: intercept / reverse_proxy `handle_response`)
+
+A response handler pairs a response matcher with either a replacement status or a route list that
+is evaluated by `rh.Routes.Compile(next).ServeHTTP(w, r)` — the same `RouteList.Compile`.  The
+model covers the shape the harness builds around the real `intercept` handler: the server's routes
+are `[intercept {handle_response …}]` followed by one `static_response <st>`; the response the
+rest of the chain produced (`st`) is buffered, the first response handler whose matcher matches
+it is picked, and its routes run in front of the same rest of the chain. -/
+
+structure RespHandler where
+  codes : List Nat          -- `match.status_code`; empty = no matcher (always matches); < 100 = a class
+  replace : Option Nat      -- `status_code`: only replace the status, stream the response
+  routes : List Route
+
+/-- `caddyhttp.StatusCodeMatches` -/
+def statusCodeMatches (actual configured : Nat) : Bool :=
+  actual == configured ||
+    (decide (configured < 100) && decide (actual ≥ configured * 100) && decide (actual < (configured + 1) * 100))
+
+def RespHandler.matchesStatus (rh : RespHandler) (st : Nat) : Bool :=
+  rh.codes.isEmpty || rh.codes.any (statusCodeMatches st)
+
+/-- `Intercept.ServeHTTP` over the chain `[static_response st]` -/
+def serveIntercepted (rhs : List RespHandler) (st : Nat) (req : Req) : Result :=
+  match rhs.find? (·.matchesStatus st) with
+  | none => ⟨[], some st⟩                               -- nobody intercepts: the response goes out
+  | some rh =>
+    match rh.replace with
+    | some _ => ⟨[], some st⟩
+      -- "only replace the status": the response is streamed, no route runs, later response handlers
+      -- are not consulted — but the status that goes out is the ORIGINAL one: `next.ServeHTTP(rec, r)`
+      -- hands over a COPY of `rec` (a struct with value-receiver methods) made before the callback
+      -- stores the replacement in `rec.statusCode`, and the callback runs inside the very
+      -- `WriteHeader` that should have used it.  Modelled as it is (not a routing clause).
+    | none => serve (rh.routes ++ [.mk 0 [] [.answer (.lit st)] false]) false [] req
+
 end CaddyModel.C05
